@@ -75,7 +75,12 @@ SessApply(X, ss, s, r, req, authRequired) ==
   IN
   IF ~ss.open THEN [ss |-> ss, kind |-> "dead", res |-> Res(X, Ok)]
   ELSE IF r.op = "proto" THEN
-    IF r.version \in {0, 1} THEN [ss |-> [ss EXCEPT !.proto = r.version], kind |-> "reply", res |-> Res(X, Ok)]
+    IF r.version \in {0, 1}
+      THEN [ss |-> [ss EXCEPT !.proto = r.version], kind |-> "reply",
+            \* extended monitoring: Worterbuch::protocol_switched records the version (worterbuch.rs:1116-1124)
+            res |-> IF ExtMon /\ s \in X.clients
+                      THEN [DoSet(X, ClientKey(s, "protocolVersion"), NumT(r.version), INT, TRUE) EXCEPT !.rep = Ok]
+                      ELSE Res(X, Ok)]
     ELSE close
   ELSE IF r.op = "auth" THEN
     IF ss.auth.ok THEN close                                   \* AlreadyAuthorized is returned
